@@ -971,6 +971,10 @@ def _pc_prog(rng, nq=None, nblocks=None, sizes=(1, 1, 2, 2, 3)):
 
 
 def _pc_fresh(p, rng, types, labels=None, dtype='float64', qtotal=None, fill=None, layout=None):
+    if qtotal is None:
+        # the total charge of some block: at least one block is allowed (so `fill` decides the sparsity, not the draw of qtotal)
+        legs3 = [base_leg(p.pool, t) for t in types]
+        qtotal = charge_of(p.mods, legs3, [rng.randrange(len(l[0])) for l in legs3])
     r = p.new(types=[list(t) for t in types], labels=labels if labels is not None else rng.sample(LABELS[:8], len(types)),
               dtype=dtype, qtotal=qtotal, fill=fill if fill is not None else rng.choice([1.0, 1.0, 0.7]))
     spec = p.steps[r]['spec']
@@ -1011,8 +1015,13 @@ def _pc_reuse(p, rng, r, scalar=True):
             p.push({'op': 'norm', 'a': r}, {'kind': 'scalar'})
 
 
-def pc_tdot_int_axes(rng, dtype_a, dtype_b, lay_a, lay_b, sort_b, nq, keep=None, fill=None, ncon=None):
+def pc_tdot_int_axes(rng, dtype_a, dtype_b, lay_a, lay_b, sort_b, nq, keep=None, fill=None, ncon=None, const_last=False):
     p = _pc_prog(rng, nq=nq, nblocks=rng.choice([2, 3, 3, 4]) if ncon is None else 2)
+    if const_last and nq >= 2:
+        # the LAST charge (the primary sort key of the charge matching) is the same everywhere: every comparison of two different
+        # charge vectors is decided by an earlier column
+        for l in p.pool:
+            l['charges'] = [c[:-1] + [0] for c in l['charges']]
     n = ncon or rng.choice([1, 1, 2])
     ka, kb = rng.choice([0, 1, 1, 2]), rng.choice([0, 1, 1, 2])
     if keep is not None:                               # (0, k): a fully contracted, (k, 0): b fully contracted
@@ -1062,7 +1071,7 @@ def pc_tdot_int_axes(rng, dtype_a, dtype_b, lay_a, lay_b, sort_b, nq, keep=None,
     return p.case()
 
 
-def pc_combine_split(rng, dtype, rank, how, relayout, nested, fill=None, one_group=None):
+def pc_combine_split(rng, dtype, rank, how, relayout, nested, fill=None, one_group=None, pipes_opt=False):
     """a tensor of rank 3-6, combine_legs (groups of 2-3 legs), optionally a second combine over the pipe (nested pipes), a change of
     the memory layout, then split_legs (public and worker), and the result used again"""
     p = _pc_prog(rng, nq=rng.choice([0, 1, 1, 2]), nblocks=None if rank <= 4 else rng.choice([1, 2, 2]),
@@ -1085,10 +1094,12 @@ def pc_combine_split(rng, dtype, rank, how, relayout, nested, fill=None, one_gro
         g, axes = axes[:k], axes[k:]
         if g:
             groups.append(sorted(g) if rng.random() < 0.6 else g)
-    st = {'op': rng.choice(['combine', 'combine', 'w_combine']), 'a': a, 'groups': [[labels[i] if rng.random() < 0.5 else i for i in g] for g in groups],
+    st = {'op': 'combine' if pipes_opt else rng.choice(['combine', 'combine', 'w_combine']), 'a': a, 'groups': [[labels[i] if rng.random() < 0.5 else i for i in g] for g in groups],
           'new_axes': None, 'qconj': None}
     if st['op'] == 'combine' and rng.random() < 0.3:
         st['qconj'] = [rng.choice([1, -1]) for _ in groups]
+    elif st['op'] == 'combine' and (pipes_opt or rng.random() < 0.2):
+        st['pipes'] = [{'qconj': rng.choice([1, -1]), 'sort': rng.random() < 0.5, 'bunch': rng.random() < 0.5} for _ in groups]
     c = p.push(st, p.arr_opaque())
     if nested and rank - sum(len(g) for g in groups) + len(groups) >= 2:
         c = p.push({'op': 'combine', 'a': c, 'groups': [[0, 1]], 'new_axes': None, 'qconj': None}, p.arr_opaque())
@@ -1108,9 +1119,12 @@ def pc_combine_split(rng, dtype, rank, how, relayout, nested, fill=None, one_gro
 
 
 def pc_iadd(rng, dtype_a, dtype_b, pref, alias, lay_a, lay_b, fills, err=None):
-    p = _pc_prog(rng, nq=rng.choice([0, 1, 1, 2]), sizes=(2, 2, 3) if (lay_a or lay_b) else (1, 2, 2, 3))
+    if alias == 'shallow-extend':                      # (no charges, >= 2 blocks per leg, rank >= 2: at least 4 blocks to divide)
+        p = _pc_prog(rng, nq=0, nblocks=rng.choice([2, 3]), sizes=(1, 2, 2, 3))
+    else:
+        p = _pc_prog(rng, nq=rng.choice([0, 1, 1, 2]), sizes=(2, 2, 3) if (lay_a or lay_b) else (1, 2, 2, 3))
     p.allow_alias_writes = True
-    rank = rng.choice([1, 2, 2, 3]) if not (lay_a or lay_b) else rng.choice([2, 2, 3])
+    rank = rng.choice([1, 2, 2, 3]) if not (lay_a or lay_b or alias == 'shallow-extend') else rng.choice([2, 2, 3])
     types = [['L', rng.randrange(len(p.pool)), rng.choice([1, -1])] for _ in range(rank)]
     labels = rng.sample(LABELS[:8], rank)
     if alias == 'views':
@@ -1189,12 +1203,11 @@ def pc_iadd(rng, dtype_a, dtype_b, pref, alias, lay_a, lay_b, fills, err=None):
         p.steps.append(st)                        # (not through push: the write through a shallow copy is the point)
         p.regs.append({'kind': 'none'})
     _pc_reuse(p, rng, r)
-    c = p.case()
-    if alias in ('shallow', 'shallow-extend'):
-        c['unspecified'] = [b]                    # the state of the shallow copy after the write is documented as unspecified
-    elif b != a and rng.random() < 0.5:
+    # (after a write through a shallow copy that changed the copy in one configuration, harness/c04.py stops comparing the copy:
+    #  its state is documented as unspecified)
+    if b != a and alias not in ('shallow', 'shallow-extend') and rng.random() < 0.5:
         _pc_reuse(p, rng, b)
-    return c
+    return p.case()
 
 
 def pc_iscale(rng, dtype, pref, lay, fill, op=None):
@@ -1349,6 +1362,8 @@ def gen_pair_classes(rng, i):
         keep = [(0, 1), (1, 0), (0, 2), (2, 0)][(j // 3) % 4] if (k == 2 and j % 3 == 0) else None
         if k == 1 and j % 4 == 1:                      # three contracted legs
             return pc_tdot_int_axes(rng, da, db, la, lb, None, [0, 1, 2][(j // 4) % 3], keep=(1, 1), fill=1.0, ncon=3)
+        if k == 0 and j % 4 == 2:
+            return pc_tdot_int_axes(rng, da, db, la, lb, [None, 'b'][(j // 4) % 2], 2, fill=0.8, const_last=True)
         return pc_tdot_int_axes(rng, da, db, la, lb, [None, 'b', 'both', 'a'][(j + k) % 4], 0 if keep else [0, 1, 2, 2][(j // 3) % 4],
                                 keep=keep, fill=1.0 if keep else None)
     if k in (3, 4, 5):          # combine / split: dtype x rank 3-6 x layouts x nested pipes
@@ -1357,7 +1372,7 @@ def gen_pair_classes(rng, i):
         rel = [None, 'asfortran', 'real' if d.startswith('complex') else 'asfortran', None][(j + k) % 4]
         rank = [3, 4, 5, 6, 4, 5][(j + k) % 6]
         return pc_combine_split(rng, d, rank, how, rel, nested=(j % 3 == 1), fill=0.0 if (k == 5 and j % 6 == 5) else None,
-                                one_group=2 if (rank == 6 and j % 2 == 0) else None)
+                                one_group=2 if (rank == 6 and j % 2 == 0) else None, pipes_opt=(j % 4 == 3))
     if k == 6 and j < len(PC_IADD_FORCED):
         return pc_iadd(rng, *PC_IADD_FORCED[j])
     if k in (6, 7, 8, 9):       # iadd_prefactor_other: calc dtype x prefactor class x aliasing x merge arms x layouts
